@@ -3,3 +3,6 @@ e1("C01", "CrossHair/z3 bounded symbolic execution of HsmEventProcessor.dispatch
 e1("C02", "CrossHair/z3 bounded symbolic execution of dispatch's outward search over symbolic per-state reaction vectors")
 e1("C03", "CrossHair/z3 bounded symbolic execution of start_at/init over symbolic start depth and initial-transition hops")
 e1("C24", "CrossHair/z3 bounded symbolic execution of start_at/dispatch on charts with one symbolic malformation, call-count hang detection")
+e1("C14", "CrossHair/z3 bounded symbolic execution of one or two queued-chart operations from a symbolic queue pre-state, deque reference model")
+e1("C15", "CrossHair/z3 bounded symbolic execution of defer/recall/post/step pairs from symbolic pending/deferred pre-states, two-deque reference model")
+e1("C16", "CrossHair/z3 bounded symbolic execution of one LockingDeque / post operation from a symbolic (capacity, length, token balance, consumer regime) pre-state")
